@@ -22,7 +22,7 @@ CHECKS = {
              'to log at the linearisation points (negative controls: corrupted traces are rejected).',
         design='5/C01'),
     'C02': dict(
-        engine='spec/OutcomeReport.tla, spec/OutcomeReportExport.tla, spec/Outcome.tla, spec/ExecSteps.tla',
+        engine='spec/OutcomeReport.tla, spec/Exactly.tla (composition with spec/PhaseExec.tla), spec/Outcome.tla, spec/ExecSteps.tla (+ *Export.tla)',
         technique='TLC model checking of the outcome/reporter machine + replay of every TLC-enumerated run '
                   '(status x mode x way of ending x ATC exit code) through the real CLI',
         text='TLC enumerates every run (3 statuses x 3 output modes x pre-execution endings x every failing executor '
